@@ -179,11 +179,11 @@ func adversarial(r *hx.Rand, decoder string) []byte {
 var zooCorpus = map[string][]string{
 	"ntriples": {"<http://e/s> <http://e/p> \"x\"^^<http://www.w3.org/1999/02/22-rdf-syntax-ns#langString> .", "<http://e/s> <http://e/p> \"x\"^^<http://www.w3.org/1999/02/22-rdf-syntax-ns#dirLangString> .", "<http://e/s> <http://e/p> \"x\"@ .", "<http://e/s> <http://e/p> \"x\"@en-Latn-US .", "<http://e/s> <http://e/p> <http://e/o> .\n<http://exa", "_:a <http://e/p> _:b.c.\n", "<http://e/s> <http://e/p> \"\\uD800\" .", "<s> <http://e/p> <http://e/o> ."},
 	"nquads":   {"<http://e/s> <http://e/p> \"x\"^^<http://www.w3.org/1999/02/22-rdf-syntax-ns#langString> <http://e/g> .", "<http://e/s> <http://e/p> <http://e/o> _:g .\n<http://e/s> <http://e/p> \"é\"@en <http://e/g> . # c", "<http://e/s> <http://e/p> <http://e/o> <g> ."},
-	"turtle": {"<http://e/s> <http://e/p> \"x\"^^<http://www.w3.org/1999/02/22-rdf-syntax-ns#langString> .", "@prefix rdf: <http://www.w3.org/1999/02/22-rdf-syntax-ns#> . <http://e/s> <http://e/p> \"x\"^^rdf:langString .", "() <http://e/p> <http://e/o> .", "<http://e/s> <http://e/p> () .", "@prefix : <http://e/> . :\\. :p :o .", ":\\. ", "<http://e/s> <http://e/p> <http://e/o> # c",
+	"turtle": {"<s> <p> \"1\"^^<types#celsius>, \"2\"^^<#c> ; <q> <../o> .", "@base <http://b/x/> . @prefix p: <ns#> . p:s p:p \"1\"^^p:dt , <o> .", "<http://e/s> <http://e/p> \"x\"^^<http://www.w3.org/1999/02/22-rdf-syntax-ns#langString> .", "@prefix rdf: <http://www.w3.org/1999/02/22-rdf-syntax-ns#> . <http://e/s> <http://e/p> \"x\"^^rdf:langString .", "() <http://e/p> <http://e/o> .", "<http://e/s> <http://e/p> () .", "@prefix : <http://e/> . :\\. :p :o .", ":\\. ", "<http://e/s> <http://e/p> <http://e/o> # c",
 		"<http://e/s> <http://e/p> \"x\"@ .", "<http://e/s> <http://e/p> \"x\"@en-Latn-US .", "@prefix p: <http://e/> . p:a\\. p:p p:o .", "<http://e/s> a<http://e/C> .", "[] <http://e/p> [ ] .",
 		"<s> <p> <o> .", "@base <rel/> . <s> <p> <o> .", "<http://e/s> <http://e/p> 1.e5, -.5, +0, true, .5 .", "<http://e/s> <http://e/p> \"\"\"a\"\"b\"\"\" .", "( 1 2 ) <http://e/p> ( ( ) ) .",
 		"[ <http://e/p> 1 ] .", "[ <http://e/p> 1 ] <http://e/q> 2 .", "<http://e/s> <http://e/p> <http://e/o> ; ; .", "PREFIX p: <http://e/>\nBASE <http://b/>\np:s p:p <o> ."},
-	"trig": {"{ <http://e/s> <http://e/p> \"x\"^^<http://www.w3.org/1999/02/22-rdf-syntax-ns#langString> . }", "{ () <http://e/p> <http://e/o> . }", "<http://e/g> { <http://e/s> <http://e/p> <http://e/o> }", "GRAPH _:g { [] <http://e/p> ( 1 ) . }", "[] { <http://e/s> <http://e/p> <http://e/o> . }",
+	"trig": {"<g> { <s> <p> \"1\"^^<types#celsius> . } GRAPH <g2> { <s> <p> <o> }", "{ <http://e/s> <http://e/p> \"x\"^^<http://www.w3.org/1999/02/22-rdf-syntax-ns#langString> . }", "{ () <http://e/p> <http://e/o> . }", "<http://e/g> { <http://e/s> <http://e/p> <http://e/o> }", "GRAPH _:g { [] <http://e/p> ( 1 ) . }", "[] { <http://e/s> <http://e/p> <http://e/o> . }",
 		"() <http://e/p> <http://e/o> .", "@prefix : <http://e/> . :g { :s :p :o } :s :p :o .", "{ <s> <p> <o> }", "GRAPH <http://e/g> { } { }"},
 	"rdfjson": {"{\"http://e/s\":{\"http://e/p\":[{\"type\":\"literal\",\"value\":\"x\",\"lang\":\"\"}]}}",
 		"{\"http://e/s\":{\"http://e/p\":[{\"type\":\"literal\",\"value\":\"x\",\"lang\":\"en\",\"datatype\":\"http://www.w3.org/1999/02/22-rdf-syntax-ns#langString\"}]}}",
@@ -199,6 +199,6 @@ var zooCorpus = map[string][]string{
 		"<html prefix=\"e: http://e/ e2:\"><body about=\"[_:]\" typeof=\"e:T\"><p property=\"e:p\" inlist=\"\">x</p><p rel=\"e:q\" inlist=\"\" resource=\"[e:]\"></p><time property=\"e:t\" datetime=\"P1D\">x</time></body></html>"},
 	"htmlmicrodata": {"<div itemscope itemtype=\"\" itemid=\" \"><span itemprop=\"\">x</span><a itemprop=\"p\" href=\"\">y</a><meta itemprop=\"q\"><time itemprop=\"t\">z</time><div itemprop=\"r\" itemscope></div></div>",
 		"<div itemscope itemref=\"a a b\" id=\"a\"><span id=\"b\" itemprop=\"p\" itemscope itemref=\"a\">x</span></div>"},
-	"htmljsonld": {"<html><head><script type=\"application/ld+json\">{\"@id\":\"http://e/s\",\"http://e/p\":{\"@value\":\"x\",\"@language\":\"\"}}</script><script type=\"application/ld+json\">[</script></head></html>"},
+	"htmljsonld":   {"<html><head><script type=\"application/ld+json\">{\"@id\":\"http://e/s\",\"http://e/p\":{\"@value\":\"x\",\"@language\":\"\"}}</script><script type=\"application/ld+json\">[</script></head></html>"},
 	"htmldefaults": {"<html><head><base href=\"http://b/\"><script type=\"application/ld+json\">{\"@id\":\"_:a\",\"http://e/p\":{\"@id\":\"_:a\"}}</script></head><body about=\"_:a\" vocab=\"http://e/\"><p property=\"p\" itemscope itemprop=\"q\">x</p></body></html>"},
 }
